@@ -1,5 +1,6 @@
 """Obligation registry and SMT discharge (z3 python API first, z3 nlsat tactic and cvc5 CLI as fall-backs)."""
 import os
+import sys
 import subprocess
 import tempfile
 import time
@@ -139,6 +140,7 @@ class Registry(object):
         self.names = set()
         self.notes = []
         self.unmodelled = []      # (func, what) -- constructs havocked by the executor
+        self.joint = True         # clauses of one path are first tried as one conjunction
 
     def unique(self, name):
         base = name
@@ -148,6 +150,11 @@ class Registry(object):
             k += 1
         self.names.add(name)
         return name
+
+    def _trace(self, ob):
+        if os.environ.get("VERIF_TRACE"):
+            sys.stderr.write("[ob] %-8s %-7s %6s ms  %s\n" % (ob.kind, ob.result, getattr(ob, "ms", "-"), ob.name))
+            sys.stderr.flush()
 
     def prove(self, name, kind, func, pc, goal, lineno=None, region=None, keep_smt=False):
         ob = Obligation(self.unique(name), kind, func, lineno)
@@ -163,8 +170,26 @@ class Registry(object):
                 s.add(a)
             s.add(z3.Not(goal))
             ob.smt2 = s.to_smt2()
+        self._trace(ob)
         self.obligations.append(ob)
         return ob
+
+    def prove_all(self, items, func, pc):
+        """items: [(name, kind, goal, lineno)].  One query for the conjunction first: if it is discharged every clause is (each gets its
+        own obligation record, marked 'jointly'); otherwise each clause is asked on its own so that the failing one is named."""
+        if len(items) <= 1 or not self.joint:
+            return [self.prove(n, k, func, pc, g, lineno=ln) for (n, k, g, ln) in items]
+        res, backend, model, ms, smt2 = check_sat(list(pc) + [z3.Not(z3.And(*[g for (_, _, g, _) in items]))], self.timeout_ms, want_model=False)
+        if res != "unsat":
+            return [self.prove(n, k, func, pc, g, lineno=ln) for (n, k, g, ln) in items]
+        out = []
+        for (n, k, g, ln) in items:
+            ob = Obligation(self.unique(n), k, func, ln)
+            ob.result, ob.backend, ob.ms = "unsat", backend + " (jointly with %d clauses of the same path)" % (len(items) - 1), ms / len(items)
+            self._trace(ob)
+            self.obligations.append(ob)
+            out.append(ob)
+        return out
 
     def cover(self, name, func, pc, lineno=None):
         """Reachability (vacuity) obligation: pc must be satisfiable."""
@@ -178,6 +203,7 @@ class Registry(object):
             res, backend, ms = res2, backend2 + " (quantifier-free part)", ms + ms2
             ob.detail = "full path condition: unknown within 5 s; quantifier-free part: %s" % res2
         ob.result, ob.backend, ob.ms = res, backend, ms
+        self._trace(ob)
         self.obligations.append(ob)
         return ob
 
@@ -189,6 +215,7 @@ class Registry(object):
         ob.detail = detail
         ob.ms = ms
         ob.model = model
+        self._trace(ob)
         self.obligations.append(ob)
         return ob
 
@@ -197,6 +224,7 @@ class Registry(object):
         ob.result = "unknown"
         ob.backend = "executor"
         ob.detail = why
+        self._trace(ob)
         self.obligations.append(ob)
         return ob
 
